@@ -160,7 +160,7 @@ pub fn case_strategy(io: InOpts) -> BoxedStrategy<Case> {
 
 pub fn run(ctx: &Ctx) {
     ctx.rule(
-        "cases = (config, input) encoded 8 ways: {single, multi(real threads, 1..=5 workers)} x {MemSource, integer fill, byte fill} + frame-level x {integer, byte}; both end-of-input behaviours of a source; \
+        "cases = (config, input) encoded 8 ways: {single, multi(real threads, 1..=5 workers)} x {MemSource, integer fill, byte fill} + frame-level x {integer, byte}; both end-of-input behaviours of a source; the frame-level variant either copies the context's sample count or relies on the total accumulated by Stream::add_frame; family power-of-two-block-bytes: every (channels, width, block size) whose block is exactly 2^15..2^19 or 3*2^15..3*2^17 bytes, two blocks and a few samples, all 8 ways; \
          oracle: STREAMINFO parsed by the reference reader states the source's rate/channels/bps, total = inter-channel samples consumed, MD5 = harness' own RFC 1321 digest of its own LE serialisation; accessors agree; the 42 bytes are identical across the 8 variants; \
          non-trivial = (>= 2 frames and a negative sample) or bps != 16; scheduled interleavings of the hashing thread are explored in part 'sched' (see DESIGN 3.6)",
     );
@@ -173,6 +173,32 @@ pub fn run(ctx: &Ctx) {
             c
         })
     }, check);
+    // shapes whose block is an exact power-of-two number of bytes (32 KiB .. 512 KiB, and 3 x 2^k): where chunked
+    // hashing / staging buffers of such sizes would have their boundaries
+    {
+        use crate::gen::{CfgSpec, ChanSpec, InputSpec, Seg};
+        let mut shapes: Vec<(usize, usize, usize)> = vec![];
+        for total in [1usize << 15, 1 << 16, 1 << 17, 1 << 18, 1 << 19, 3 << 15, 3 << 16, 3 << 17] {
+            for ch in 1usize..=8 {
+                for bps in [8usize, 16, 24] {
+                    let per_sample = ch * ((bps + 7) / 8);
+                    if total % per_sample == 0 && (32..=32767).contains(&(total / per_sample)) {
+                        shapes.push((ch, bps, total / per_sample));
+                    }
+                }
+            }
+        }
+        ctx.bump("shapes-with-power-of-two-block-bytes", shapes.len() as u64);
+        ctx.enumerate_all("power-of-two-block-bytes", 16, shapes.len() as u64, |i| {
+            let (ch, bps, block) = shapes[i as usize];
+            let mut cfg = CfgSpec::default();
+            cfg.block_size = block;
+            cfg.use_lpc = false;
+            cfg.fixed_max_order = 1;
+            let inp = InputSpec { channels: ch, bps, rate: 48000, len: 2 * block + 5 + i as usize % 3, chans: vec![ChanSpec { segs: vec![Seg { class: 4, amp: 2, p: 99 }] }; ch], rel: 0, seed: 500 + i, explicit: None };
+            Case { base: StreamCase { cfg, inp, entry: Entry::Single, src: SrcKind::Mem }, fill_empty_at_end: i % 2 == 0, workers: 1 + i as usize % 3 }
+        }, check);
+    }
     super::c03_sched_part(ctx);
 }
 
